@@ -25,6 +25,19 @@ Theorem C16_check_random_state : forall (gstate value : Type) (seed : Z -> gstat
 Proof. exact check_random_state_spec. Qed.
 Print Assumptions C16_check_random_state.
 
+(* check_random_state as the code writes it: an if / elif chain of type tests.  corr:C16-static re-reads the chain from the
+   source on every run and writes it as a decision table; for EVERY table accepted by [crs_table_ok] (decidable, evaluated
+   on the regenerated table) the table-driven function is the model's check_random_state, for all arguments and worlds.  The
+   chain of /repo is accepted (Example C16_crs_table_examples).  (That RandomState(seed) itself rejects ints outside
+   [0, 2**32) is NumPy's behaviour: traced, not read from the source.) *)
+Theorem C16_check_random_state_table : forall (gstate value : Type) (seed : Z -> gstate)
+    (tbl : list (crs_test * crs_action)) (dflt : crs_action),
+  crs_table_ok tbl dflt = true ->
+  forall (p : rsval) (w : lworld gstate value),
+    crs_by_table gstate value seed tbl dflt p w = check_random_state gstate value seed p w.
+Proof. exact crs_table_exact. Qed.
+Print Assumptions C16_check_random_state_table.
+
 (* NON-INTERFERENCE, unary form: a global-free skeleton computes exactly what the semantics WITHOUT a
    global generator computes, and the global generator evolves by the environment's steps alone *)
 Theorem C16_noninterference : forall (gstate value req : Type) (draw : req -> gstate -> value * gstate) (seed : Z -> gstate)
@@ -656,3 +669,26 @@ Example C16_threaded_instances_example :
   length (outcomes_on Z Z nat 0 h (fst (fst r))) = 3 /\
   nth_error (snd r) 0 = nth_error (snd r) 1 /\ nth_error (snd r) 0 <> Some (toy_seed 3%Z).
 Proof. vm_compute. repeat split; try reflexivity; discriminate. Qed.
+
+(* the decision table: the chain of /repo is accepted; so is a chain that tests in another order or accepts NumPy integers as
+   ints; a chain that seeds the GLOBAL generator for ints, forgets the raise, tests the instance before None is fine but maps
+   it to the global generator, or contains a test the translator does not understand is NOT *)
+Example C16_crs_table_examples :
+  crs_table_ok crs_table_repo ARaise = true /\
+  crs_table_ok [(TIsRandomState, ASelf); (TIsInt, AFreshSeeded); (TIsNone, AGlobalGen)] ARaise = true /\
+  crs_table_ok [(TIsNone, AGlobalGen); (TIsInt, AGlobalGen); (TIsRandomState, ASelf)] ARaise = false /\
+  crs_table_ok [(TIsNone, AGlobalGen); (TIsInt, AFreshSeeded); (TIsRandomState, ASelf)] AGlobalGen = false /\
+  crs_table_ok [(TIsNone, AGlobalGen); (TIsInt, AFreshSeeded); (TIsRandomState, AGlobalGen)] ARaise = false /\
+  crs_table_ok [(TUnknown, ARaise); (TIsNone, AGlobalGen); (TIsInt, AFreshSeeded); (TIsRandomState, ASelf)] ARaise = false /\
+  fst (crs_by_table Z Z toy_seed crs_table_repo ARaise (VInt 3%Z) (w0 Z Z (HInt 3%Z))) = Some (GObj 0).
+Proof. repeat split; reflexivity. Qed.
+
+(* the source-level analysis accepts the embedding of EVERY hand-written skeleton of a seedable definition (and of its class
+   wrapper) on the whole option grid -- 64 definitions x 36 option values, by computation; the universal statement for the
+   first language's analyses is C16_skeletons_global_free -- and the source-level out-of-range criterion accepts the
+   embedding of every entry point C16_invalid_seed_rejected is claimed for *)
+Example C16_source_analysis_accepts_handwritten :
+  forallb seedable seedable_eps = true /\ length seedable_eps = 64 /\ length opt_grid = 36 /\
+  forallb (fun e => forallb (fun o => pglobal_free (embed (skeleton e o)) && global_free_w (skeleton e o)) opt_grid) seedable_eps = true /\
+  forallb (fun e => forallb (fun o => implb (always_checks e) (pmust_check (embed (skeleton e o)))) opt_grid) seedable_eps = true.
+Proof. vm_compute. repeat split; reflexivity. Qed.
